@@ -20,6 +20,9 @@ every path that emits a backslash run or pushes back resets/uses the count consi
 emission that is followed by a return to the exit state). Every path returns a state (self, an exit state, a new state
 object) or None (token finished, only on whitespace). Splitter._get_token calls finish() on the last state and joins
 exactly the accumulated token pieces.
+Added while testing against seeded changes: Also: module-level named literals are folded; quote membership is tested
+against context.allowed_quote_chars only; whitespace ends a token exactly when context.token is non-empty and a
+closing quote leaves the empty marker.
 Does not decide: that split() inverts the documented quoting for all strings (induction over inputs).
 """
 STATES = ["_Whitespace", "_Quotes", "_Backslash", "_Word"]
